@@ -120,6 +120,8 @@ type gen struct {
 	// [] array literals, runtime errors inside try); the result is not a Go
 	// program any more.
 	ego bool
+	// noTry: with ego, do not generate try/catch.
+	noTry bool
 }
 
 func (g *gen) f(s string) { g.feat[s] = true }
@@ -533,7 +535,11 @@ func (g *gen) stmt() {
 	}
 	switch g.pick("stmt", maxKind) {
 	case 16, 17:
-		g.tryStmt()
+		if g.noTry {
+			g.printExprStmt()
+		} else {
+			g.tryStmt()
+		}
 	case 18:
 		g.dynamicStmt()
 	case 19:
@@ -1307,17 +1313,22 @@ func (g *gen) genRecursive() {
 }
 
 // GoProgram draws one program whose top-level names start with prefix.
-func GoProgram(t *rapid.T, prefix string) Program { return program(t, prefix, false) }
+func GoProgram(t *rapid.T, prefix string) Program { return program(t, prefix, false, false) }
 
 // EgoProgram draws a program in the same style that additionally uses
 // Ego-only constructs (try/catch with runtime errors and throw, dynamic
 // retyping of a variable, [] array literals). It is not a Go program; it is
 // used where no Go reference is needed (C02, C04). Language extensions must be
 // enabled to run it.
-func EgoProgram(t *rapid.T, prefix string) Program { return program(t, prefix, true) }
+func EgoProgram(t *rapid.T, prefix string) Program { return program(t, prefix, true, false) }
 
-func program(t *rapid.T, prefix string, ego bool) Program {
-	g := &gen{t: t, prefix: prefix, feat: map[string]bool{}, out: &strings.Builder{}, ego: ego}
+// EgoProgramNoTry is EgoProgram without try/catch: every runtime error,
+// including a type error, ends the program (used by C04, which must know that
+// a program ran to completion without any type error).
+func EgoProgramNoTry(t *rapid.T, prefix string) Program { return program(t, prefix, true, true) }
+
+func program(t *rapid.T, prefix string, ego, noTry bool) Program {
+	g := &gen{t: t, prefix: prefix, feat: map[string]bool{}, out: &strings.Builder{}, ego: ego, noTry: noTry}
 	// active types: int always, plus a few others
 	all := append(append([]string{}, intTypes...), floatTypes...)
 	g.types = []string{"int"}
